@@ -541,6 +541,67 @@ fn check_frames(rep: &mut Report) -> (u64, u64, Vec<Value>) {
     (n, 1473 * 5, vec![json!({"frame_lengths": "0..=1472", "patterns": 5, "tuples": 3, "lengths_with_a_transmitted_zero_udp_checksum": zero})])
 }
 
+/// Checksum word sweeps.  The Internet checksum of a frame is, as a function of any one of its
+/// 16-bit words, a bijection on the one's-complement sums; sweeping one word through all 65536
+/// values therefore drives the running sum through every value it can take for that frame shape
+/// (every carry pattern of the fold, the computed-zero case of UDP).  One sweep of a payload word
+/// per payload length and one of the low half of the source address (IPv4 header checksum).
+fn check_checksum_sweeps(rep: &mut Report, thorough: bool) -> u64 {
+    use erbium_net::packet::{Fragment, Tail};
+    let lens: Vec<usize> = if thorough { vec![2, 3, 4, 5, 64, 299, 300, 301, 576, 1471, 1472] } else { vec![2, 3, 300, 1472] };
+    let fills: Vec<u8> = if thorough { vec![0x00, 0xff, 0x5a] } else { vec![0x00, 0xff] };
+    let smac = [2u8, 0, 0, 0, 0, 1];
+    let dmac = [2u8, 0, 0, 0, 0, 2];
+    let mut jobs: Vec<(usize, u8, bool)> = vec![];
+    for l in &lens {
+        for f in &fills {
+            jobs.push((*l, *f, false)); // sweep the first payload word
+            jobs.push((*l, *f, true)); // sweep the low half of the source address
+        }
+    }
+    let results: Vec<(u64, Vec<Violation>)> = jobs
+        .par_iter()
+        .map(|(len, fill, sweep_src)| {
+            let mut out = vec![];
+            let mut n = 0u64;
+            for w in 0..=0xffffu32 {
+                let mut p = vec![*fill; *len];
+                let src_ip = if *sweep_src { Ipv4Addr::new(10, 0, (w >> 8) as u8, w as u8) } else { Ipv4Addr::new(192, 0, 2, 1) };
+                if !*sweep_src {
+                    p[0] = (w >> 8) as u8;
+                    p[1] = w as u8;
+                }
+                let src = (src_ip, 67u16);
+                let dst = (Ipv4Addr::new(10, 0, 200, 7), 68u16);
+                n += 1;
+                let sa = std::net::SocketAddrV4::new(src.0, src.1);
+                let da = std::net::SocketAddrV4::new(dst.0, dst.1);
+                let r = panics::catch(|| Fragment::new_udp4(sa.into(), &smac, da.into(), &dmac, Tail::Payload(&p)).flatten());
+                let case = json!({"engine":"c12","part":"frame-sweep","len":len,"fill":fill,"swept":if *sweep_src {"source-address-low-half"} else {"payload-word-0"},"word":w});
+                match r {
+                    Err(pi) => out.push(Violation::new("frame-panic", format!("new_udp4 panicked: {} at {}", pi.msg, panics::short_loc(&pi.loc)), case).sig("part", "frame")),
+                    Ok(frame) => {
+                        if let Err(e) = frame_check(&frame, &p, src, dst, &smac, &dmac) {
+                            if out.len() < 3 {
+                                out.push(Violation::new("frame-invalid", format!("payload {len} octets, swept word {w:#06x}: {e}"), case).sig("part", "frame"));
+                            }
+                        }
+                    }
+                }
+            }
+            (n, out)
+        })
+        .collect();
+    let mut n = 0;
+    for (k, vs) in results {
+        n += k;
+        for v in vs.into_iter().take(2) {
+            rep.violation(v);
+        }
+    }
+    n
+}
+
 pub fn run(tier: &str, replay: Option<Value>) -> ! {
     let mut rep = Report::new("C12", if replay.is_some() { "quick" } else { tier }, "exploration");
     if let Some(case) = replay {
@@ -554,6 +615,9 @@ pub fn run(tier: &str, replay: Option<Value>) -> ! {
             Some("frame") => {
                 check_frames(&mut rep);
             }
+            Some("frame-sweep") => {
+                check_checksum_sweeps(&mut rep, true);
+            }
             _ => {
                 check_roundtrip(&mut rep, true);
             }
@@ -564,11 +628,12 @@ pub fn run(tier: &str, replay: Option<Value>) -> ! {
     let (e1, d1) = check_flags(&mut rep);
     let (e2, d2, s2) = check_roundtrip(&mut rep, thorough);
     let (e3, d3, s3) = check_frames(&mut rep);
-    rep.cov("evaluations", e1 + e2 + e3);
+    let e4 = check_checksum_sweeps(&mut rep, thorough);
+    rep.cov("evaluations", e1 + e2 + e3 + e4);
     rep.cov("distinct_nontrivial", d1 + d2 + d3);
-    rep.cov("rule", "flags: all 65536 values; round trip: header variants x hlen 0..16 x sname/file boundary lengths (full product) + all option sets of size <=3 over 4 (thorough 6) codes x boundary lengths, each also decoded by an independent RFC 2131/3396 decoder; frames: every payload length 0..1472 x 5 patterns x 3 address tuples. distinct = outcome/shape classes (flags: (observed,expected) pairs; round trip: header/length classes; frames: length x pattern)");
+    rep.cov("rule", "flags: all 65536 values; round trip: header variants x hlen 0..16 x sname/file boundary lengths (full product) + all option sets of size <=3 over 4 (thorough 6) codes x boundary lengths, each also decoded by an independent RFC 2131/3396 decoder; frames: every payload length 0..1472 x 5 patterns x 3 address tuples; checksum sweeps: all 65536 values of the first payload word and of the low half of the source address, for 4 (thorough 11) payload lengths x 2 (3) fills -- every value the one's-complement sum can take for that frame shape. distinct = outcome/shape classes (flags: (observed,expected) pairs; round trip: header/length classes; frames: length x pattern)");
     rep.cov("exhaustive", true);
-    rep.cov("parts", json!({"flags": e1, "roundtrip_and_wire_dual": e2, "frames": e3}));
+    rep.cov("parts", json!({"flags": e1, "roundtrip_and_wire_dual": e2, "frames": e3, "checksum_word_sweeps": e4}));
     let mut samples = s2;
     samples.extend(s3);
     samples.push(json!({"flags": "0x0000..=0xffff"}));
